@@ -1,7 +1,7 @@
 """C18 - a type mapping replaces the mapped type everywhere and nothing else.
 
 TLC enumerates type expressions whose leaves are the source names of a type_mappings table
-(Gen_Types, LeafMode = "mapped": plain names, the generic names DateTime<Utc> and Versioned<Uuid, Utc>, and UserId which is ALSO
+(Gen_Types, LeafMode = "mapped": plain names, the generic names DateTime<Utc>, Versioned<Uuid, Utc> and Stamped<chrono::Utc> (a path-qualified generic argument), and UserId which is ALSO
 a serde struct of the project) under up to 2 contexts; every expression is generated at every site in
 both modes WITH the mapping table and WITHOUT it.  TLC judges (Trace_Types):
   Mapped   : the emitted type denotes Shape(rust) with the leaf replaced by its target, and the
@@ -18,7 +18,7 @@ from lib import common as C
 from lib import rustgen, tsprint, typecases
 
 PROP = "C18"
-TABLE = {"PathBuf": "string", "Versioned<Uuid, Utc>": "string", "DateTime<Utc>": "string", "UserId": "number", "Flag": "boolean"}
+TABLE = {"PathBuf": "string", "Versioned<Uuid, Utc>": "string", "DateTime<Utc>": "string", "UserId": "number", "Flag": "boolean", "Stamped<chrono::Utc>": "number"}
 EXTRA_SRC = """
 #[derive(Serialize, Deserialize)]
 pub struct UserId {
@@ -99,7 +99,7 @@ def run(tier, seed, only=None):
     for (idx, site, mode) in minimal:
         o = by[(idx, site, mode)]
         emitted = tsprint.show(o["ts"]) if o["lang"] == "ts" else tsprint.show_expr(o["zod"])
-        mapped_declared = sorted(set(o["declared"]) & {"PathBuf", "Versioned", "Uuid", "Utc", "DateTime", "UserId", "Flag"})
+        mapped_declared = sorted(set(o["declared"]) & {"PathBuf", "Versioned", "Uuid", "Utc", "DateTime", "UserId", "Flag", "Stamped", "chrono"})
         sig = typecases.head_signature(types[idx])
         leafnames = sorted(_mapped_names(types[idx]))
         key = "site=%s mode=%s type=%s mapped=%s" % (site, mode, sig, ",".join(leafnames))
